@@ -17,6 +17,8 @@ if [ "$REPO" != "/repo" ]; then
   sed "s#=> /repo#=> $REPO#" go.mod > "$MODFILE"
   cp go.sum "$BINDIR/go.sum"
   trap 'rm -rf "$BINDIR"' EXIT
+  export VERIF_OUT="${VERIF_OUT:-/tmp/verif-scratch-out}"
+  mkdir -p "$VERIF_OUT"
 fi
 build() {
   mkdir -p "$BINDIR"
